@@ -70,31 +70,39 @@ func allMerges(act []*sdl.Source) []map[string]string {
 			out = append(out, FlattenDoc(merged))
 			return
 		}
-		permute(groups[gi].items, func(perm []*sdl.Source) {
+		permute(groups[gi].items, func(perm []*sdl.Source) bool {
 			rec(gi+1, append(append([]*sdl.Source(nil), acc...), perm...))
+			return len(out) <= 64
 		})
 	}
 	rec(0, nil)
 	return out
 }
 
-func permute(xs []*sdl.Source, f func([]*sdl.Source)) {
+// permute calls f with every permutation of xs until f answers false.
+func permute(xs []*sdl.Source, f func([]*sdl.Source) bool) {
 	n := len(xs)
 	idx := make([]int, n)
 	for i := range idx {
 		idx[i] = i
 	}
+	stop := false
 	var rec func(k int)
 	rec = func(k int) {
+		if stop {
+			return
+		}
 		if k == n {
 			p := make([]*sdl.Source, n)
 			for i, j := range idx {
 				p[i] = xs[j]
 			}
-			f(p)
+			if !f(p) {
+				stop = true
+			}
 			return
 		}
-		for i := k; i < n; i++ {
+		for i := k; i < n && !stop; i++ {
 			idx[k], idx[i] = idx[i], idx[k]
 			rec(k + 1)
 			idx[k], idx[i] = idx[i], idx[k]
